@@ -123,7 +123,8 @@ def line_wrap_by_sentence(
 
         # Handle width <= 0 as "no wrapping"
         if width <= 0:
-            return initial_indent + text.strip()
+            # Still collapse runs of whitespace, as every other mode and width does.
+            return initial_indent + re.sub(r"\s+", " ", text).strip()
 
         lines: list[str] = []
         first_line = True
